@@ -301,11 +301,25 @@ def _lifecycle_case(ev, w, plan):
     """document handle obtained, then remove() or a re-key, then a write through a NEW handle request: no directory of the old id reappears;
     the document file is exactly signac_job_document.json under the CURRENT id"""
     reset_buffers()
-    s = ws.Sim(paths=("/p",))
+    s = ws.Sim(paths=("/p", "/q"))
     problems = []
     try:
         job = s.pr["/p"].open_job({"a": 0}).init()
         old_id = job.id
+        if ev == 2:
+            # document used, job moved to another project, document used again through the same handle
+            job.document["x"] = 1
+            job.move(s.pr["/q"])
+            job.document["y"] = w
+            snap_p, snap_q = s.fs.snapshot("/p/workspace"), s.fs.snapshot("/q/workspace")
+            if snap_p:
+                problems.append(("source workspace not empty after move + document write", sorted(snap_p)[:3]))
+            raw = snap_q.get(old_id + "/signac_job_document.json")
+            if raw is None or json.loads(raw) != {"x": 1, "y": w}:
+                problems.append(("document after move", raw))
+            if job.document.filename != f"/q/workspace/{old_id}/signac_job_document.json":
+                problems.append(("document filename after move", job.document.filename))
+            return (not problems), problems
         ctx = None
         if plan:
             ctx = signac.buffered()
@@ -339,10 +353,10 @@ def _lifecycle_case(ev, w, plan):
 
 
 def h_lifecycle(ev: int, w: int, plan: int):
-    assert 0 <= ev <= 1 and 0 <= w <= 1 and 0 <= plan <= 1
-    assert not (ev == 1 and plan == 1)  # a state point change inside a buffered block is not a document operation (outside the claim; see DESIGN §6)
+    assert 0 <= ev <= 2 and 0 <= w <= 1 and 0 <= plan <= 1
+    assert not (ev >= 1 and plan == 1)  # a state point change inside a buffered block is not a document operation (outside the claim; see DESIGN §6)
     fresh_path()
-    ev, w, plan = ci(ev, 0, 1), ci(w, 0, 1), ci(plan, 0, 1)
+    ev, w, plan = ci(ev, 0, 2), ci(w, 0, 1), ci(plan, 0, 1)
     with nt():
         r = _lifecycle_case(ev, w, plan)
     reached()
